@@ -88,7 +88,7 @@ def state_streams(ctx: Ctx) -> None:
     rng = ctx.rng.__class__(f"C17-states/{ctx.seed}")
     conv = c14.Conv()
     names = sorted(STATE_MODELS)
-    n = 20000 if ctx.thorough else 2000
+    n = 60000 if ctx.thorough else 8000
     Rnd = rng.__class__
     for si in range(n):
         if not ctx.mine(si):
@@ -229,7 +229,7 @@ def other_subscriptions(ctx: Ctx) -> None:
 
     res = ctx.res
     rng = ctx.rng
-    for rep in range(60 if ctx.thorough else 12):
+    for rep in range(240 if ctx.thorough else 48):
         with Sim() as sim:
             cli, dconn = session(sim)
             log: list[tuple[str, Any]] = []
